@@ -107,3 +107,18 @@ Lemma repair_kill_witness :
   summarize (recover_store exH (firstn (lrec_size (LFrame (hd (mk_frame exH (exP 0) 0 0 0 (1, [])) (w_frames ex_t1))))
                                 (repair exH ex_crashed))) = summarize (Ok ([], TAll)).
 Proof. vm_compute. repeat split; reflexivity. Qed.
+
+Definition ex_kill_point : nat :=
+  lrec_size (LFrame (hd (mk_frame exH (exP 0) 0 0 0 (1, [])) (w_frames ex_t1))).
+
+Lemma repair_kill_exists : exists (H : bytes -> N) (disk : bytes) (m : nat),
+  (exists acked tl, acked <> [] /\ recover_store H disk = Ok (acked, tl)) /\
+  (m < length (repair H disk))%nat /\
+  summarize (recover_store H (firstn m (repair H disk))) = summarize (Ok ([], TAll)).
+Proof.
+  exists exH, ex_crashed, ex_kill_point. split; [|split].
+  - remember (recover_store exH ex_crashed) as v eqn:E. vm_compute in E. subst v.
+    eexists. eexists. split; [|reflexivity]. discriminate.
+  - apply Nat.ltb_lt. vm_compute. reflexivity.
+  - vm_compute. reflexivity.
+Qed.
